@@ -110,7 +110,8 @@ pub(crate) fn rank_dials(dials: Vec<PendingDial>) -> Vec<(Duration, PendingDial)
         relay_offset,
     ));
 
-    let max_delay = result.last().map(|d| d.0);
+    // The groups are concatenated, so the last element does not necessarily carry the largest delay.
+    let max_delay = result.iter().map(|d| d.0).max();
     result.extend(other.into_iter().map(|d| {
         if let Some(max_delay) = max_delay {
             (max_delay + PUBLIC_OTHER_DELAY, d)
@@ -314,10 +315,14 @@ fn is_global_addr(a: &Multiaddr) -> bool {
         return false; // link-local, not globally routable
     }
     if let Some(dns) = a.iter().find_map(|p| match p {
-        Protocol::Dns(dns) | Protocol::Dns4(dns) | Protocol::Dns6(dns) => Some(dns),
+        Protocol::Dns(dns)
+        | Protocol::Dns4(dns)
+        | Protocol::Dns6(dns)
+        | Protocol::Dnsaddr(dns) => Some(dns),
         _ => None,
     }) {
-        return dns == "localhost" || dns.ends_with(".localhost");
+        // Localhost names are not globally routable, every other name is.
+        return !(dns == "localhost" || dns.ends_with(".localhost"));
     }
     false
 }
